@@ -40,8 +40,10 @@ func handleTabularOutput(w http.ResponseWriter, originalStatement string, codedS
 	Println("Include IG Script input in generated output:", printIgScriptInput)
 	// Output type
 	Println("Output type:", outputType)
+	verifYield(w, "options")
 	// Convert input
 	output, err2 := endpoints.ConvertIGScriptToTabularOutput(originalStatement, codedStmt, stmtId, outputType, "", true, tabular.IncludeHeader(), printOriginalStatement, printIgScriptInput)
+	verifYield(w, "converted")
 	if err2.ErrorCode != tree.PARSING_NO_ERROR {
 		retStruct.Success = false
 		retStruct.Error = true
@@ -81,6 +83,7 @@ func handleTabularOutput(w http.ResponseWriter, originalStatement string, codedS
 		tabularOutput += v.Output
 	}
 	retStruct.Output = tabularOutput
+	verifYield(w, "render")
 	err := tmpl.ExecuteTemplate(w, TEMPLATE_NAME_PARSER_TABULAR, retStruct)
 	if err != nil {
 		log.Println("Error processing default template:", err.Error())
@@ -124,8 +127,10 @@ func handleVisualOutput(w http.ResponseWriter, codedStmt string, stmtId string, 
 	tree.SetBinaryPrinting(binaryOutput)
 	Println("Setting activation condition on top in visual output:", moveActivationConditionsToTop)
 	tree.SetMoveActivationConditionsToFront(moveActivationConditionsToTop)
+	verifYield(w, "options")
 	// Convert input
 	output, err2 := endpoints.ConvertIGScriptToVisualTree(codedStmt, stmtId, "")
+	verifYield(w, "converted")
 	if err2.ErrorCode != tree.PARSING_NO_ERROR {
 		retStruct.Success = false
 		retStruct.Error = true
@@ -159,6 +164,7 @@ func handleVisualOutput(w http.ResponseWriter, codedStmt string, stmtId string, 
 	retStruct.Success = true
 	retStruct.CodedStmt = codedStmt
 	retStruct.Output = output
+	verifYield(w, "render")
 	err := tmpl.ExecuteTemplate(w, TEMPLATE_NAME_PARSER_VISUAL, retStruct)
 	if err != nil {
 		log.Println("Error processing default template:", err.Error())
